@@ -53,7 +53,7 @@ def _category_full(name):
 
 
 def ch(cp):
-    return z3.Unit(z3.CharFromBv(z3.BitVecVal(cp, 18))) if cp > 0x7e or cp < 0x20 else z3.StringVal(chr(cp))
+    return z3.StringVal('\\u{%x}' % cp) if cp > 0x7e or cp < 0x20 or cp == 0x5c else z3.StringVal(chr(cp))
 
 
 def re_char(cp):
